@@ -11,6 +11,7 @@ import (
 	"path/filepath"
 	"runtime"
 	"sort"
+	"strings"
 	"time"
 
 	"github.com/hashicorp/serf/serf"
@@ -42,6 +43,12 @@ type hOp struct {
 	M int    `json:"m,omitempty"` // member index into Names
 	A int    `json:"a,omitempty"` // address variant
 	V uint64 `json:"v,omitempty"` // Lamport time / witness value / milliseconds
+	// NW (event-sending ops): hand the event over and go on without waiting for
+	// it to be processed; the next waiting op (or settle) waits for all of them.
+	// The events still arrive in order (channels are FIFO), so the model is the
+	// same; what changes is that several events are queued in front of the
+	// snapshot goroutine at once.
+	NW bool `json:"nw,omitempty"`
 }
 
 type snapCase struct {
@@ -56,6 +63,11 @@ type snapCase struct {
 	// stuck in a slow write, and the owned clock moves on by StallMs meanwhile
 	StallLeave bool `json:"stall_leave,omitempty"`
 	StallMs    int  `json:"stall_ms,omitempty"`
+	// SelfIdx (C10 Serf layer): 0 = the restarted node has a name of its own,
+	// k>0 = it is Names[(k-1)%len] (if that is usable as a node name)
+	SelfIdx int `json:"self_idx,omitempty"`
+	// EarlierLife: Ops starts with a life that ends in a graceful leave
+	EarlierLife bool `json:"earlier_life,omitempty"`
 	// Ops2: what the node goes on to do after it was restarted from a crash
 	// image (C11's "crash, restart, carry on, restart again" phase)
 	Ops2 []hOp `json:"ops2,omitempty"`
@@ -64,7 +76,8 @@ type snapCase struct {
 var hostileNames = []string{
 	"a", "node-1", "with space", " leading", "trailing ", "two  spaces", "", "alive: x", "not-alive: y",
 	"clock: 7", "leave", "# comment", "ünï-cødé-节点", "tab\there", "x 10.0.0.1:80", "coordinate: z",
-	"event-clock: 9", "a:b", "[::1]:80",
+	"event-clock: 9", "a:b", "[::1]:80", "a ", " a", "A", "a a", "alive:", "alive: ", "not-alive: a", "query-clock: 1",
+	"leave ", " leave", "a 10.9.9.9:7946", "10.9.9.9:7946", "a=b", "#", "a\r",
 }
 
 func genNames(t *rapid.T, allowNewline bool) []string {
@@ -81,7 +94,12 @@ func genNames(t *rapid.T, allowNewline bool) []string {
 		case 5:
 			s = rapid.StringN(1, 8, 24).Draw(t, "anystr")
 		case 6:
-			s = string(make([]byte, 0)) + rapid.StringMatching(`[A-Za-z0-9.-]{100,128}`).Draw(t, "long")
+			if rapid.IntRange(0, 3).Draw(t, "verylong") == 0 {
+				// as long as a name can be and still fit a gossip packet
+				s = rapid.StringMatching(`[a-z]{1,4}( [a-z]{1,4})?`).Draw(t, "vl-head") + strings.Repeat("x", rapid.IntRange(250, 1200).Draw(t, "vl-len"))
+			} else {
+				s = string(make([]byte, 0)) + rapid.StringMatching(`[A-Za-z0-9.-]{100,128}`).Draw(t, "long")
+			}
 		default:
 			s = rapid.StringMatching(`[a-z0-9-]{1,8}`).Draw(t, "plain")
 		}
@@ -128,7 +146,7 @@ func genOps(t *rapid.T, maxLen int, weights map[int]int) []hOp {
 		switch k {
 		case opJoin:
 			op.M = rapid.IntRange(0, 7).Draw(t, "m")
-			op.A = rapid.IntRange(0, 5).Draw(t, "a")
+			op.A = rapid.IntRange(0, numAddrVariants-1).Draw(t, "a")
 		case opLeave, opFailed, opUpdate, opReap:
 			op.M = rapid.IntRange(0, 7).Draw(t, "m")
 		case opUser, opQuery, opWitness:
@@ -141,20 +159,34 @@ func genOps(t *rapid.T, maxLen int, weights map[int]int) []hOp {
 	return ops
 }
 
-func addrFor(member, variant int) (net.IP, uint16) {
-	switch variant % 6 {
+const numAddrVariants = 9
+
+// addrFor gives the address a member joins from, and the "host:port" string the
+// harness expects a restart to dial (written out here, not produced by the code
+// under test's formatting). Variants 0-5 are per member; 6-8 are SHARED by all
+// members (two names at one address: a node that came back under a new name
+// before the old one was declared failed) in both representations of an IPv4
+// address and as IPv6.
+func addrFor(member, variant int) (net.IP, uint16, string) {
+	switch variant % numAddrVariants {
 	case 0:
-		return net.IPv4(10, 0, byte(member), 1), 7946
+		return net.IPv4(10, 0, byte(member), 1), 7946, fmt.Sprintf("10.0.%d.1:7946", byte(member))
 	case 1:
-		return net.IPv4(10, 0, byte(member), 2), 7946
+		return net.IPv4(10, 0, byte(member), 2), 7946, fmt.Sprintf("10.0.%d.2:7946", byte(member))
 	case 2:
-		return net.IPv4(192, 168, byte(member), 77), 1
+		return net.IPv4(192, 168, byte(member), 77), 1, fmt.Sprintf("192.168.%d.77:1", byte(member))
 	case 3:
-		return net.ParseIP(fmt.Sprintf("fe80::%x", member+1)), 65535
+		return net.ParseIP(fmt.Sprintf("fe80::%x", member+1)), 65535, fmt.Sprintf("[fe80::%x]:65535", member+1)
 	case 4:
-		return net.ParseIP("::1"), uint16(8000 + member)
+		return net.ParseIP("::1"), uint16(8000 + member), fmt.Sprintf("[::1]:%d", 8000+member)
+	case 5:
+		return net.IPv4(127, 0, 0, 1).To4(), 0, "127.0.0.1:0"
+	case 6:
+		return net.IPv4(10, 9, 9, 9), 7946, "10.9.9.9:7946" // 16-byte form
+	case 7:
+		return net.IPv4(10, 9, 9, 9).To4(), 7946, "10.9.9.9:7946" // 4-byte form, same address
 	default:
-		return net.IPv4(127, 0, 0, 1).To4(), 0
+		return net.ParseIP("2001:db8::9"), 7946, "[2001:db8::9]:7946"
 	}
 }
 
@@ -202,6 +234,7 @@ type snapRun struct {
 	open    bool
 	left    bool // graceful leave issued in the current generation
 	problem string
+	pending int // events handed over with NW and not yet seen on the out channel
 
 	// model
 	alive       map[string]string
@@ -215,6 +248,8 @@ type snapRun struct {
 	step        int
 	compactions int
 	sentMember  int
+	// history step at which each clock last moved (C12 judges what moved after the fault)
+	clockAdvStep, eventAdvStep, queryAdvStep int
 	aliveAtLeave map[string]string
 	leaveSeen    bool
 }
@@ -299,20 +334,45 @@ func (r *snapRun) waitBacklog() bool {
 	return true
 }
 
-// send delivers one event and waits until it has been forwarded and processed.
-// forwarded=false means the tee did not forward the event in time.
+// send delivers one event and waits until it (and every event handed over
+// before it without waiting) has been forwarded and processed.
+// forwarded=false means the tee did not forward an event in time.
 func (r *snapRun) send(e serf.Event) (forwarded bool) {
 	r.in <- e
-	select {
-	case <-r.out:
-	case <-time.After(syncTimeout):
-		return false
+	r.pending++
+	return r.settle()
+}
+
+// sendNoWait hands the event over and returns.
+func (r *snapRun) sendNoWait(e serf.Event) {
+	r.in <- e
+	r.pending++
+}
+
+// settle waits until everything handed over so far has been forwarded and
+// processed by the snapshot goroutine.
+func (r *snapRun) settle() (forwarded bool) {
+	for r.pending > 0 {
+		select {
+		case <-r.out:
+			r.pending--
+		case <-time.After(syncTimeout):
+			return false
+		}
 	}
 	if !r.waitBacklog() {
 		return true
 	}
 	r.barrier()
 	return true
+}
+
+func (r *snapRun) deliver(e serf.Event, nowait bool) bool {
+	if nowait {
+		r.sendNoWait(e)
+		return true
+	}
+	return r.send(e)
 }
 
 func (r *snapRun) memberName(op hOp) string { return r.c.Names[op.M%len(r.c.Names)] }
@@ -330,10 +390,10 @@ func (r *snapRun) apply(op hOp) bool {
 	switch op.K {
 	case opJoin:
 		name := r.memberName(op)
-		ip, port := addrFor(op.M%len(r.c.Names), op.A)
-		ok := r.send(serf.MemberEvent{Type: serf.EventMemberJoin, Members: []serf.Member{{Name: name, Addr: ip, Port: port, Status: serf.StatusAlive}}})
+		ip, port, want := addrFor(op.M%len(r.c.Names), op.A)
+		ok := r.deliver(serf.MemberEvent{Type: serf.EventMemberJoin, Members: []serf.Member{{Name: name, Addr: ip, Port: port, Status: serf.StatusAlive}}}, op.NW)
 		if recording {
-			r.alive[name] = (&net.TCPAddr{IP: ip, Port: int(port)}).String()
+			r.alive[name] = want
 			r.memberHist = append(r.memberHist, aliveKey(r.alive))
 			r.lastEvtStep[name] = r.step
 			r.noteClock()
@@ -345,7 +405,7 @@ func (r *snapRun) apply(op hOp) bool {
 		if op.K == opFailed {
 			typ = serf.EventMemberFailed
 		}
-		ok := r.send(serf.MemberEvent{Type: typ, Members: []serf.Member{{Name: name}}})
+		ok := r.deliver(serf.MemberEvent{Type: typ, Members: []serf.Member{{Name: name}}}, op.NW)
 		if recording {
 			delete(r.alive, name)
 			r.memberHist = append(r.memberHist, aliveKey(r.alive))
@@ -358,7 +418,7 @@ func (r *snapRun) apply(op hOp) bool {
 		if op.K == opReap {
 			if _, isAlive := r.alive[name]; isAlive {
 				// Serf only reaps failed/left members; keep the history realistic
-				ok := r.send(serf.MemberEvent{Type: serf.EventMemberUpdate, Members: []serf.Member{{Name: name}}})
+				ok := r.deliver(serf.MemberEvent{Type: serf.EventMemberUpdate, Members: []serf.Member{{Name: name}}}, op.NW)
 				if recording {
 					r.noteClock()
 				}
@@ -369,43 +429,65 @@ func (r *snapRun) apply(op hOp) bool {
 		if op.K == opReap {
 			typ = serf.EventMemberReap
 		}
-		ok := r.send(serf.MemberEvent{Type: typ, Members: []serf.Member{{Name: name}}})
+		ok := r.deliver(serf.MemberEvent{Type: typ, Members: []serf.Member{{Name: name}}}, op.NW)
 		if recording {
 			r.noteClock()
 		}
 		return ok
 	case opUser:
-		ok := r.send(serf.UserEvent{LTime: serf.LamportTime(op.V), Name: "ev", Payload: []byte("p")})
+		ok := r.deliver(serf.UserEvent{LTime: serf.LamportTime(op.V), Name: "ev", Payload: []byte("p")}, op.NW)
 		if recording && op.V > r.maxEvent {
 			r.maxEvent = op.V
 			r.eventHist[op.V] = true
+			r.eventAdvStep = r.step
 		}
 		if recording {
 			r.noteClock()
 		}
 		return ok
 	case opQuery:
-		ok := r.send(&serf.Query{LTime: serf.LamportTime(op.V), Name: "q"})
+		ok := r.deliver(&serf.Query{LTime: serf.LamportTime(op.V), Name: "q"}, op.NW)
 		if recording && op.V > r.maxQuery {
 			r.maxQuery = op.V
 			r.queryHist[op.V] = true
+			r.queryAdvStep = r.step
 		}
 		if recording {
 			r.noteClock()
 		}
 		return ok
 	case opWitness:
+		before := r.lc.Time()
 		r.lc.Witness(serf.LamportTime(op.V))
+		if r.lc.Time() != before {
+			r.clockAdvStep = r.step
+		}
 	case opTick:
+		if !r.settle() {
+			return false
+		}
 		r.barrier()
 		r.noteClock()
 	case opAdvance:
 		r.clk.Advance(time.Duration(op.V) * time.Millisecond)
 	case opGracefulLeave:
+		// "the moment of the leave" is well defined: everything before it has been processed
+		if !r.settle() {
+			return false
+		}
 		if r.left {
+			// a second Leave() in the same life: nothing more to forget, nothing to
+			// bring back; it has to return (the snapshot goroutine is running)
+			done := make(chan struct{})
+			go func() { defer close(done); r.snap.Leave() }()
+			select {
+			case <-done:
+			case <-time.After(syncTimeout):
+				r.problem = "second Leave() did not return"
+			}
+			r.barrier()
 			return true
 		}
-		// "the moment of the leave" is well defined: everything before it has been processed
 		r.aliveAtLeave = map[string]string{}
 		for k, v := range r.alive {
 			r.aliveAtLeave[k] = v
@@ -420,8 +502,23 @@ func (r *snapRun) apply(op hOp) bool {
 		r.barrier()
 		r.noteClock()
 	case opReopen:
+		if !r.settle() {
+			return false
+		}
+		wasLeft := r.left
 		r.closeSnap()
 		r.noteClock()
+		if wasLeft {
+			// the life that ends here left gracefully: the next life starts from
+			// nobody (rejoin-after-leave off) or from the set known at the leave
+			r.alive = map[string]string{}
+			if r.c.Rejoin {
+				for k, v := range r.aliveAtLeave {
+					r.alive[k] = v
+				}
+			}
+			r.memberHist = append(r.memberHist, aliveKey(r.alive))
+		}
 		if err := r.openSnap(); err != nil {
 			r.problem = "reopen: " + err.Error()
 		}
